@@ -91,8 +91,6 @@ package eval
 //@ func readBytes
 //@   props C17
 //@   loop 1 invariant 0 <= read && read <= max && len(buf) == max
-//@ func runParallel
-//@   props C17 C20
 
 //@ func Frame.InputFile
 //@   trusted
@@ -449,3 +447,86 @@ package eval
 //@   results parseErr autofixes compileErr
 //@   exit [parse-then-compile] ncalls == 2 && callis(0, "Parse") && callis(1, "Evaler.CheckTree")
 //@   exit [errors-reported-as-found] parseErr === callerr(0) && compileErr === callerr(1)
+
+// ---------------------------------------------------------------------------
+// C19 / C20: peach and run-parallel, as per-task protocols. Function literals are
+// addressed as <function>$<k> (k-th literal in source order) and verified as
+// functions of their own with the captured variables unknown at entry, i.e. for
+// whatever the other goroutines did before; the call log is per task. What
+// follows from these per-task facts under every schedule rests on the trusted
+// meaning of sync.WaitGroup (Wait returns after as many Done as Add) and
+// semaphore.Weighted (Acquire returns nil and holds one slot, or returns an
+// error and holds nothing; at most n slots are held; Release of a slot that is
+// not held panics). Nothing is proved about interleavings beyond that.
+
+//@ func parseNumWorkers
+//@   props C20
+//@   results num limited err
+//@   ensures [positive-int-is-the-bound] istype(n, int) && n.(int) >= 1 ==> err == nil && limited && num == n.(int)
+//@   ensures [non-positive-int-rejected] istype(n, int) && n.(int) < 1 ==> err != nil
+//@   ensures [only-plus-infinity-is-unbounded] istype(n, float64) ==> (err == nil) == (isinf(n.(float64)) && n.(float64) > tofloat(0)) && !limited
+
+// peach itself: an invalid bound is rejected before any input is read; it
+// returns only after waiting for the tasks it started.
+//@ func peach
+//@   props C20 C19
+//@   nosafety
+//@   log parseNumWorkers semaphore.NewWeighted fv sync.WaitGroup.Wait
+//@   exit [bound-parsed-first] callis(0, "parseNumWorkers")
+//@   exit [invalid-bound-rejected-before-input] !(callerr(0) === nil) ==> ncalls == 1 && result === callerr(0)
+//@   exit [waits-for-every-started-task] ncallsof("fv") >= 1 ==> ncallsof("fv") == 1 && ncallsof("sync.WaitGroup.Wait") == 1 && callis(ncalls - 1, "sync.WaitGroup.Wait") && callis(ncalls - 2, "fv")
+
+// peach$1: what happens for one input. At most one task; none once a break or
+// failure has been seen; the WaitGroup is incremented before the task starts;
+// with a worker bound the task starts only while holding a slot (Acquire
+// succeeded) and only if, after waiting for that slot, there still was no break
+// or failure (this is what makes a bound of 1 behave like each); a slot that was
+// acquired but not handed to a task is given back.
+//@ func peach$1
+//@   props C20 C19
+//@   nosafety
+//@   log atomic.LoadInt32 semaphore.Weighted.Acquire semaphore.Weighted.Release sync.WaitGroup.Add go
+//@   exit [at-most-one-task-per-input] ncallsof("go") <= 1
+//@   exit [no-task-once-broken] callis(0, "atomic.LoadInt32") && (callres(0).(int32) != 0 ==> ncalls == 1)
+//@   exit [counted-before-started] forall k int :: 0 <= k && k < ncalls && callis(k, "go") ==> k >= 1 && callis(k - 1, "sync.WaitGroup.Add")
+//@   exit [add-only-for-a-task] ncallsof("sync.WaitGroup.Add") == ncallsof("go")
+//@   exit [slot-held-when-task-starts] !(workerSema === nil) && ncallsof("go") == 1 ==> ncallsof("semaphore.Weighted.Acquire") == 1 && (forall k int :: 0 <= k && k < ncalls && callis(k, "semaphore.Weighted.Acquire") ==> callerr(k) === nil)
+//@   exit [break-rechecked-after-waiting-for-a-slot] !(workerSema === nil) && ncallsof("go") == 1 ==> (forall k int :: 0 <= k && k < ncalls && callis(k, "semaphore.Weighted.Acquire") ==> callis(k + 1, "atomic.LoadInt32") && callres(k + 1).(int32) == 0)
+//@   exit [slot-not-leaked] !(workerSema === nil) && ncallsof("go") == 0 ==> (forall k int :: 0 <= k && k < ncalls && callis(k, "semaphore.Weighted.Acquire") && callerr(k) === nil ==> ncallsof("semaphore.Weighted.Release") == 1)
+//@   exit [slot-handed-to-the-task] ncallsof("go") == 1 ==> ncallsof("semaphore.Weighted.Release") == 0
+//@   exit [no-semaphore-no-slots] workerSema === nil ==> ncallsof("semaphore.Weighted.Acquire") == 0 && ncallsof("semaphore.Weighted.Release") == 0
+
+// peach$2: one task. The callback runs exactly once; Done is called exactly
+// once, after it, on every path; with a bound the slot is released exactly once,
+// after Done; errors are merged only while holding the lock, which is released
+// when the task ends; nothing is recorded when the callback succeeds.
+//@ func peach$2
+//@   props C20 C19
+//@   nosafety
+//@   nomerge
+//@   log Callable.Call sync.WaitGroup.Done semaphore.Weighted.Release sync.Mutex.Lock sync.Mutex.Unlock errutil.Multi atomic.StoreInt32
+//@   exit [callback-exactly-once] ncallsof("Callable.Call") == 1 && callis(0, "Callable.Call")
+//@   exit [done-exactly-once] ncallsof("sync.WaitGroup.Done") == 1
+//@   exit [slot-released-exactly-once-after-done] !(workerSema === nil) ==> ncallsof("semaphore.Weighted.Release") == 1 && (forall k int :: 0 <= k && k < ncalls && callis(k, "semaphore.Weighted.Release") ==> k >= 1 && callis(k - 1, "sync.WaitGroup.Done"))
+//@   exit [no-release-without-bound] workerSema === nil ==> ncallsof("semaphore.Weighted.Release") == 0
+//@   exit [errors-merged-under-the-lock] forall k int :: 0 <= k && k < ncalls && callis(k, "errutil.Multi") ==> k >= 1 && callis(k - 1, "sync.Mutex.Lock")
+//@   exit [lock-released] ncallsof("sync.Mutex.Lock") == ncallsof("sync.Mutex.Unlock")
+//@   exit [success-records-nothing] callres(0) === nil ==> ncallsof("atomic.StoreInt32") == 0 && ncallsof("errutil.Multi") == 0
+//@   exit [failure-reported] ncallsof("errutil.Multi") <= 1 && (forall k int :: 0 <= k && k < ncalls && callis(k, "errutil.Multi") ==> callarg1(k) === callres(0))
+
+// run-parallel: the WaitGroup counts every function before any is started, one
+// task per function, and the result is built only after waiting for all of them.
+//@ func runParallel
+//@   props C17 C20
+//@   log sync.WaitGroup.Add go sync.WaitGroup.Wait MakePipelineError
+//@   loop 1 invariant ncallsof("go") == range_pos && ncallsof("sync.WaitGroup.Add") == 1 && ncallsof("sync.WaitGroup.Wait") == 0 && ncalls == 1 + range_pos
+//@   exit [all-counted-before-any-starts] callis(0, "sync.WaitGroup.Add") && callarg(0).(int) == len(functions) && ncallsof("sync.WaitGroup.Add") == 1
+//@   exit [one-task-per-function] ncallsof("go") == len(functions)
+//@   exit [result-built-after-waiting] ncalls == len(functions) + 3 && callis(ncalls - 2, "sync.WaitGroup.Wait") && callis(ncalls - 1, "MakePipelineError")
+
+// runParallel$1: one task: the function is called exactly once, Done exactly
+// once after it, and only this task's own exception slot is written.
+//@ func runParallel$1
+//@   props C20
+//@   log Callable.Call sync.WaitGroup.Done
+//@   exit [function-exactly-once] ncalls == 2 && callis(0, "Callable.Call") && callis(1, "sync.WaitGroup.Done")
